@@ -10,7 +10,9 @@ RULE = ('Hypothesis-generated histories (<= 40 ops: create/add/replace/remove/de
         'extending another entity, disabling dispatching) over a generated class DAG (3-8 recorder classes, multiple inheritance; some classes falsy, some with value equality - all their instances equal, hashable or not), ids automatic or '
         'explicit (ints inside the automatic range, str, tuple, bool/float aliases); after EVERY step all seven '
         'queries are compared with a dict-of-dicts reference model for every class and every id ever used plus '
-        'two unused ids; two invariants (an entity that owns nothing does not exist; entities and entity_exists agree) are also evaluated from inside every lifecycle callback. Non-trivial = >= 2 mutating steps and at least one of: replacement of an existing '
+        'two unused ids; two invariants (an entity that owns nothing does not exist; entities and entity_exists agree) are also evaluated from inside every lifecycle callback. '
+        'A small share of the histories is AMPLIFIED: one operation, each operation or the whole history repeated 70-1100 times (sizes around 64/128/256/1024), full comparison at ~12 points and at the end. '
+        'Non-trivial = >= 2 mutating steps and at least one of: replacement of an existing '
         'exact type, removal, deferred delete followed by process, automatic id requested after an explicit '
         'int id was used. Distinct = sha1 of the canonical JSON of the case.')
 ASSUMPTIONS = [
